@@ -204,7 +204,7 @@ def harness(ob, concrete=None):
             m.verify()
         except DiagnosticException as e:
             if ex is not None:
-                ex.note("allocation_failed", str(e)[:80])
+                ex.note("allocation_failed", type(e).__name__)
             return True
         # every value must now live in a register
         for op in f.body.walk():
